@@ -318,8 +318,8 @@ PROPS = {
                                + gen.fam_gates(s, 2, gates=["cli.alloc", "cli.tx.lock", "cli.new.sent"], faults=("cancel@park",)),
             "thorough": lambda s: gen.fam_ids(s, 600) + gen.fam_hostile_srv(s) + gen.fam_gates(s, 4, gates=["cli.alloc", "cli.new.sent", "car.sent.c2s.new"])},
     "C09": {"level": "model_checking", "hang": True,
-            "quick": lambda s: gen.fam_hostile_srv(s) + gen.fam_hostile_cli(s),
-            "thorough": lambda s: gen.fam_hostile_srv(s) + gen.fam_hostile_cli(s)},
+            "quick": lambda s: gen.fam_hostile_srv(s) + gen.fam_hostile_cli(s) + gen.fam_hostile_mdfuzz(s, 40),
+            "thorough": lambda s: gen.fam_hostile_srv(s) + gen.fam_hostile_cli(s) + sum((gen.fam_hostile_mdfuzz(s + i, 100) for i in range(6)), [])},
     "C05": {"level": "model_checking", "runner": run_c05, "hang": True,
             # (a sender waiting for credit is released when its RPC is cancelled: C05's own quantification includes cancellation)
             "also": ["C03_BystandersComplete", "C06_SenderWithinWindow", "C06_CreditBounded", "C07_CallerEndsAlone", "C07_HandlerReleased"],
